@@ -438,18 +438,31 @@ def _str_is_empty(ctx, a, c):
     return z3.Length(as_str(ctx, a[0])) == 0
 
 
+def lower_of(ctx, s):
+    """abstract lower-casing for registered strings (see inputs.sym_authority), else the definition"""
+    known = getattr(ctx, "lower_registry", {}).get(s.get_id())
+    return known if known is not None else lower(s)
+
+
 @model("str::eq_ignore_ascii_case", doc="core: ASCII case-insensitive equality")
 def _eq_ignore_case(ctx, a, c):
-    return lower(as_str(ctx, a[0])) == lower(as_str(ctx, a[1]))
+    return lower_of(ctx, as_str(ctx, a[0])) == lower_of(ctx, as_str(ctx, a[1]))
+
+
+@model("<{closure} as Fn>::call", "<{closure} as FnMut>::call_mut", "<{closure} as FnOnce>::call_once", "Fn::call", "FnMut::call_mut", "FnOnce::call_once",
+       doc="core: calling a closure value with a tuple of arguments")
+def _fn_call(ctx, a, c):
+    args = a[1].f if isinstance(a[1], Agg) else [a[1]]
+    return call_closure(ctx, a[0], args)
 
 
 MAXLEN = 12
 
 
-def lower(s):
-    """ASCII lower-casing of a string of length <= MAXLEN (callers bound the length)."""
+def lower(s, n=MAXLEN):
+    """ASCII lower-casing of a string of length <= n (callers bound the length)."""
     out = z3.StringVal("")
-    for i in range(MAXLEN):
+    for i in range(n):
         ch = z3.SubString(s, i, 1)
         code = z3.StrToCode(ch)
         lo = z3.If(z3.And(code >= 65, code <= 90), z3.StrFromCode(code + 32), ch)
@@ -647,7 +660,13 @@ class AuthorityV:
         self.port_text = port_text if port_text is not None else z3.IntToStr(z3.BV2Int(port))
 
     def as_str_model(self, ctx):
-        return z3.If(self.has_port, z3.Concat(self.host, z3.StringVal(":"), self.port_text), self.host)
+        if getattr(self, "_text", None) is None:
+            self._text = z3.If(self.has_port, z3.Concat(self.host, z3.StringVal(":"), self.port_text), self.host)
+        if ctx is not None:
+            if not hasattr(ctx, "parse_registry"):
+                ctx.parse_registry = {}
+            ctx.parse_registry[self._text.get_id()] = self
+        return self._text
 
     def display_model(self, ctx):
         return self.as_str_model(ctx)
@@ -1249,3 +1268,31 @@ def _tls_connect(ctx, a, c):
 @model("<Arc as Clone>::clone", "Arc::clone", doc="alloc: Arc clone shares the value")
 def _arc_clone(ctx, a, c):
     return deref(ctx, a[0])
+
+
+# ---- parsing text back into structured values (only text the input builder produced) --------------
+@model("str::parse", doc="core: `s.parse::<http::uri::Authority>()`: the inverse of Authority::as_str for text that was produced from a structured authority (registered by the input builder); any other text is inconclusive")
+def _str_parse(ctx, a, c):
+    s = as_str(ctx, a[0])
+    if "Authority" not in c:
+        raise Inconclusive("str::parse for " + c)
+    reg = getattr(ctx, "parse_registry", {})
+    v = reg.get(s.get_id())
+    if v is None:
+        raise Inconclusive("str::parse::<Authority> of text that is not a registered authority")
+    return ok(v)
+
+
+@model("<&str as PartialEq>::ne", "<&str as PartialEq<&str>>::ne", doc="core")
+def _refstr_ne(ctx, a, c):
+    return as_str(ctx, a[0]) != as_str(ctx, a[1])
+
+
+@model("<&str as PartialEq>::eq", doc="core")
+def _refstr_eq(ctx, a, c):
+    return as_str(ctx, a[0]) == as_str(ctx, a[1])
+
+
+@model("<Authority as ToString>::to_string", doc="http: Display of an authority is its text")
+def _auth_to_string(ctx, a, c):
+    return as_str(ctx, a[0])
